@@ -24,8 +24,10 @@ Section Mid.
   Notation invw := (ps_invw app req c m0).
 
   (* the memory state after the first j updater calls of event e, started in m:
-     - a DELETE unhooks the resource before its call-outs run (coap_delete_resource_lkd), so
-       from the first call on the memory state is the one without the resource;
+     - a DELETE keeps the resource until its dynamic-resource record is removed: with the first
+       call the Observe counter has its last value, each observe-record removal drops one
+       observer, the removal of the dynamic-resource record drops the resource; the counter line
+       goes last (coap_free_resource / coap_op_resource_deleted);
      - a registration that replaces an observer first drops the old one (1 call), then has the
        new one;
      - otherwise the change is there with the first call. *)
@@ -47,19 +49,26 @@ Section Mid.
                 end
             | None => m
             end
+        | PsEvDel name =>
+            match ps_find name m with
+            | Some r =>
+                let p := if ps_del_bump r && (ps_del_value r mod psc_freq c =? 0) then 1%nat else 0%nat in
+                if (j <=? p + length (psr_subs r))%nat
+                then ps_replace (mkRsrc name (psr_observable r) (ps_del_value r)
+                                        (skipn (j - p) (psr_subs r))) m
+                else ps_remove name m
+            | None => m
+            end
         | _ => fst (ps_ev_out alloc e m)
         end
     end.
 
-  (* the Observe values that count at that point: a DELETE forgets the resource's values at
-     once; the values an event sends itself count from its last call on *)
+  (* the Observe values that count at that point: those of the event's start until its last call
+     (for a DELETE: the resource's values count as long as its counter line is there) *)
   Definition ps_ghost_at (e : ps_event) (m : ps_mem) (G : list ps_send) (j : nat) : list ps_send :=
     match j with
     | O => G
-    | _ => match e with
-           | PsEvDel _ => ps_ghost alloc e m G
-           | _ => if (length (ps_ev_calls alloc c e m) <=? j)%nat then ps_ghost alloc e m G else G
-           end
+    | _ => if (length (ps_ev_calls alloc c e m) <=? j)%nat then ps_ghost alloc e m G else G
     end.
 
   Lemma ps_invw_swap : forall m A1 G1 A2 G2,
@@ -72,75 +81,6 @@ Section Mid.
     intros m A1 G1 A2 G2 H Hd Ho Hwf Hn Hs. destruct H. constructor; rewrite ?Hd, ?Ho; assumption.
   Qed.
 
-  (* calls that cannot hurt the weak invariant of a memory state that does not contain [name] *)
-  Definition ps_harmless (name : bytes) (m' : ps_mem) (cl : ps_call) : Prop :=
-    match cl with
-    | CCntTrack n v => n = name /\ ps_call_wf (psc_la c) (psc_lt c) cl
-    | CCntDeleted n => n = name
-    | CDynDeleted n => n = name
-    | CObsDeleted k => forall n s, ps_insub m' n s -> pss_key s <> k
-    | _ => False
-    end.
-
-  Lemma ps_invw_harmless : forall name m' G' cl A,
-    ps_find name m' = None -> (forall n tu tok v, In (n, tu, tok, v) G' -> n <> name) ->
-    invw m' A G' -> ps_harmless name m' cl -> invw m' (ps_abs_call cl A) G'.
-  Proof.
-    intros name m' G' cl A Hnone Hg Hi Hc.
-    assert (Hne : forall n r, ps_find n m' = Some r -> n <> name) by (intros n r E X; subst; congruence).
-    destruct cl; cbn [ps_harmless] in Hc; try contradiction.
-    - (* observe record removed *)
-      assert (Ho : ps_ol (ab_obs (ps_abs_call (CObsDeleted key) A)) = ps_obs_without key (ps_ol (ab_obs A)))
-        by (cbn [ps_abs_call ab_obs]; apply ps_ol_rem; reflexivity).
-      destruct Hi as [W1 W2 W3 W4 W5 W6 W7 W8 W9 W10]. constructor; try assumption.
-      + apply (ps_abs_call_wf (fun _ _ => 0)); [assumption|exact I].
-      + intros n s Hs. rewrite Ho. apply ps_obs_without_in. split; [apply (W5 n s Hs)|].
-        cbn [ps_obs_of pso_key]. apply (Hc n s Hs).
-      + intros rec Hr. rewrite Ho in Hr. apply ps_obs_without_in in Hr. apply W6. exact (proj1 Hr).
-      + rewrite Ho. apply ps_nodup_filter_map. assumption.
-      + rewrite Ho. apply ps_nodup_filter_map. assumption.
-    - (* counter line written *)
-      destruct Hc as [-> Hw].
-      assert (Hcn : ps_ol (ab_cnt (ps_abs_call (CCntTrack name v) A)) =
-                    ps_cnt_without name (ps_ol (ab_cnt A)) ++ [(name, v)])
-        by (cbn [ps_abs_call ab_cnt]; apply ps_ol_add; reflexivity).
-      destruct Hi as [W1 W2 W3 W4 W5 W6 W7 W8 W9 W10]. constructor; try assumption.
-      + apply (ps_abs_call_wf (fun _ _ => 0)); assumption.
-      + rewrite Hcn. apply ps_cnt_set_nodup. assumption.
-      + intros n tu tok v0 Hin. destruct (W10 n tu tok v0 Hin) as (x & Hx & Hb).
-        exists x. split; [|exact Hb]. rewrite Hcn. apply ps_cnt_set_in. left.
-        split; [apply (Hg n tu tok v0 Hin)|exact Hx].
-    - (* counter line removed *)
-      subst name0.
-      assert (Hcn : ps_ol (ab_cnt (ps_abs_call (CCntDeleted name) A)) = ps_cnt_without name (ps_ol (ab_cnt A)))
-        by (cbn [ps_abs_call ab_cnt]; apply ps_ol_rem; reflexivity).
-      destruct Hi as [W1 W2 W3 W4 W5 W6 W7 W8 W9 W10]. constructor; try assumption.
-      + apply (ps_abs_call_wf (fun _ _ => 0)); [assumption|exact I].
-      + rewrite Hcn. apply ps_nodup_filter_map. assumption.
-      + intros n tu tok v0 Hin. destruct (W10 n tu tok v0 Hin) as (x & Hx & Hb).
-        exists x. split; [|exact Hb]. rewrite Hcn. apply ps_cnt_without_in.
-        split; [apply (Hg n tu tok v0 Hin)|exact Hx].
-    - (* dynamic-resource record removed *)
-      subst name0.
-      assert (Hdn : ps_ol (ab_dyn (ps_abs_call (CDynDeleted name) A)) = ps_dyn_without name (ps_ol (ab_dyn A)))
-        by (cbn [ps_abs_call ab_dyn]; apply ps_ol_rem; reflexivity).
-      destruct Hi as [W1 W2 W3 W4 W5 W6 W7 W8 W9 W10]. constructor; try assumption.
-      + apply (ps_abs_call_wf (fun _ _ => 0)); [assumption|exact I].
-      + intros d Hd. rewrite Hdn in Hd. apply ps_dyn_without_in in Hd. apply W2. exact (proj1 Hd).
-      + intros n r Hf Ho. destruct (W3 n r Hf Ho) as [Hs|(d & Hd & Hdn')]; [left; exact Hs|right].
-        exists d. split; [|exact Hdn']. rewrite Hdn. apply ps_dyn_without_in. split; [exact Hd|].
-        rewrite Hdn'. apply (Hne n r Hf).
-  Qed.
-
-  Lemma ps_invw_harmless_all : forall name m' G' calls A,
-    ps_find name m' = None -> (forall n tu tok v, In (n, tu, tok, v) G' -> n <> name) ->
-    invw m' A G' -> Forall (ps_harmless name m') calls -> invw m' (ps_abs_calls calls A) G'.
-  Proof.
-    intros name m' G' calls. induction calls as [|cl calls IH]; intros A Hn Hg Hi Hc; [exact Hi|].
-    inversion Hc; subst. cbn [ps_abs_calls]. apply IH; try assumption.
-    eapply ps_invw_harmless; eassumption.
-  Qed.
-
   Lemma ps_forall_firstn : forall X (P : X -> Prop) j l, Forall P l -> Forall P (firstn j l).
   Proof.
     intros X P j. induction j as [|j IH]; intros l H; [constructor|].
@@ -149,49 +89,186 @@ Section Mid.
 
   Notation inv_event := (ps_inv_event app req alloc c m0 alloc_fresh alloc_len cfg_proto cfg_listen freq_pos freq_small).
 
-  (* delete: from the first call on, the memory state without the resource *)
-  Lemma ps_mid_del : forall name m A G r j,
-    inv m A G -> ps_evt_ok app req c (PsEvDel name) m -> ps_find name m = Some r ->
-    invw (ps_remove name m)
-         (ps_abs_calls (firstn j (ps_ev_calls alloc c (PsEvDel name) m)) A)
-         (ps_ghost alloc (PsEvDel name) m G).
+  (* ---------------------------------------------------------------- delete *)
+  Lemma ps_abs_obs_deletes_nodup : forall X (f : ps_obs -> X) l A,
+    NoDup (map f (ps_ol (ab_obs A))) ->
+    NoDup (map f (ps_ol (ab_obs (ps_abs_calls (map (fun s => CObsDeleted (pss_key s)) l) A)))).
   Proof.
-    intros name m A G r j Hi Hok Hf.
+    intros X f. induction l as [|s l IH]; intros A H; cbn [map ps_abs_calls]; [exact H|].
+    apply IH. cbn [ps_abs_call ab_obs]. rewrite ps_ol_rem by reflexivity. apply ps_nodup_filter_map. exact H.
+  Qed.
+
+  Lemma ps_nodup_app_diff : forall X Y (f : X -> Y) l1 l2 a b,
+    NoDup (map f (l1 ++ l2)) -> In a l1 -> In b l2 -> f a <> f b.
+  Proof.
+    intros X Y f. induction l1 as [|x l1 IH]; intros l2 a b Hnd Ha Hb; [contradiction|].
+    cbn [List.app map] in Hnd. inversion Hnd as [|? ? Hx Hrest]; subst. destruct Ha as [->|Ha].
+    - intro E. apply Hx. rewrite E. apply in_map. apply in_or_app. right. exact Hb.
+    - apply (IH l2 a b Hrest Ha Hb).
+  Qed.
+
+  Lemma ps_firstn_map : forall X Y (f : X -> Y) k l, firstn k (map f l) = map f (firstn k l).
+  Proof. intros X Y f. induction k as [|k IH]; intros [|x l]; cbn [firstn map]; [reflexivity..|]. rewrite IH. reflexivity. Qed.
+
+  Lemma ps_firstn_del : forall (F : ps_sub -> ps_call) (pre tl : list ps_call) subs j,
+    (j <= length pre + length subs)%nat ->
+    firstn j (pre ++ map F subs ++ tl) = firstn j pre ++ map F (firstn (j - length pre) subs).
+  Proof.
+    intros F pre tl subs j Hj. rewrite firstn_app. f_equal. rewrite firstn_app, map_length.
+    replace (j - length pre - length subs)%nat with 0%nat by lia. cbn [firstn]. rewrite app_nil_r.
+    apply ps_firstn_map.
+  Qed.
+
+  (* the counter line a DELETE may write first *)
+  Lemma ps_mid_del_pre : forall name m A G r pre',
+    inv m A G -> ps_find name m = Some r -> psr_observe r < ps_bound c ->
+    pre' = [] \/ pre' = [CCntTrack name (ps_del_value r)] ->
+    invw m (ps_abs_calls pre' A) G /\ ab_obs (ps_abs_calls pre' A) = ab_obs A /\
+    Forall (ps_call_wf (psc_la c) (psc_lt c)) pre'.
+  Proof.
+    intros name m A G r pre' Hi Hf Hok Hp.
     pose proof (ps_inv_invw (fun _ _ => 0) app req c m0 m A G Hi) as Hw.
+    destruct Hp as [->| ->]; [split; [exact Hw|split; [reflexivity|constructor]]|].
+    destruct (iv_res _ _ _ _ _ _ _ Hi name r Hf) as (Hnok & Hrange & _).
+    assert (Hval : psr_observe r <= ps_del_value r <= ps_bound c).
+    { unfold ps_del_value. destruct (ps_del_bump r); [|lia]. rewrite (ps_next_observe_ok c freq_pos) by lia. lia. }
+    assert (Hwf : ps_call_wf (psc_la c) (psc_lt c) (CCntTrack name (ps_del_value r))).
+    { apply (ps_track_wf app req c m0 freq_pos m A G name r Hi Hf). lia. }
+    cbn [ps_abs_calls]. split; [|split; [reflexivity|constructor; [exact Hwf|constructor]]].
+    assert (Hcn : ps_ol (ab_cnt (ps_abs_call (CCntTrack name (ps_del_value r)) A)) =
+                  ps_cnt_without name (ps_ol (ab_cnt A)) ++ [(name, ps_del_value r)])
+      by (cbn [ps_abs_call ab_cnt]; apply ps_ol_add; reflexivity).
+    apply (ps_invw_swap m A G _ G Hw); try reflexivity.
+    - apply (ps_abs_call_wf (fun _ _ => 0)); [apply (iv_wf _ _ _ _ _ _ _ Hi)|exact Hwf].
+    - rewrite Hcn. apply ps_cnt_set_nodup. apply (iv_cnt1 _ _ _ _ _ _ _ Hi).
+    - intros n tu tok v Hin. rewrite Hcn. destruct (ps_bytes_dec n name) as [->|Hne].
+      + exists (ps_del_value r). split; [apply ps_cnt_set_in; right; split; reflexivity|]. split; [lia|].
+        destruct (iv_sent _ _ _ _ _ _ _ Hi name tu tok v Hin) as (r' & Hf' & Hv & _).
+        rewrite Hf in Hf'. inversion Hf'; subst r'.
+        pose proof (ps_rnd_ge (psc_freq c) freq_pos (ps_del_value r) ltac:(lia)). lia.
+      + destruct (iw_sent _ _ _ _ _ _ _ Hw n tu tok v Hin) as (x & Hx & Hb). exists x. split; [|exact Hb].
+        apply ps_cnt_set_in. left. split; assumption.
+  Qed.
+
+  (* the observe records of the deleted resource go one by one; the resource itself, the other
+     observers and every sent value are still contained in the files *)
+  Lemma ps_mid_del_obs : forall name m A G A0 r v k,
+    inv m A G -> ps_find name m = Some r -> invw m A0 G -> ab_obs A0 = ab_obs A ->
+    invw (ps_replace (mkRsrc name (psr_observable r) v (skipn k (psr_subs r))) m)
+         (ps_abs_calls (map (fun s => CObsDeleted (pss_key s)) (firstn k (psr_subs r))) A0) G.
+  Proof.
+    intros name m A G A0 r v k Hi Hf Hw Hobs.
+    set (new := mkRsrc name (psr_observable r) v (skipn k (psr_subs r))).
+    set (l := firstn k (psr_subs r)).
+    destruct (ps_abs_obs_deletes l A0) as (F1 & F2 & F3 & _).
+    destruct (iv_res _ _ _ _ _ _ _ Hi name r Hf) as (_ & _ & Hnd & _).
+    assert (Hrep := fun n s => ps_insub_replace new m name r n s eq_refl Hf).
+    assert (Hfind := fun n => ps_find_replace_any new m name r n eq_refl Hf).
+    assert (Hsplit : psr_subs r = l ++ skipn k (psr_subs r)) by (subst l; symmetry; apply firstn_skipn).
+    assert (Hsk : forall s, In s (skipn k (psr_subs r)) -> In s (psr_subs r))
+      by (intros s Hs; rewrite Hsplit; apply in_or_app; right; exact Hs).
+    assert (Hfi : forall s, In s l -> In s (psr_subs r))
+      by (intros s Hs; rewrite Hsplit; apply in_or_app; left; exact Hs).
+    assert (Hsubset : forall n s, ps_insub (ps_replace new m) n s -> ps_insub m n s).
+    { intros n s Hs. apply Hrep in Hs. destruct Hs as [[-> Hin]|[_ Hs]]; [|exact Hs].
+      exists r. split; [exact Hf|apply Hsk; exact Hin]. }
+    destruct Hw as [W1 W2 W3 W4 W5 W6 W7 W8 W9 W10]. constructor.
+    - apply (ps_abs_calls_wf (fun _ _ => 0) c); [exact W1|].
+      apply Forall_forall. intros x Hx. apply in_map_iff in Hx. destruct Hx as (s & <- & _). exact I.
+    - rewrite F1. exact W2.
+    - intros n r' Hf' Ho'. rewrite F1. rewrite Hfind in Hf'. destruct (ps_beq n name) eqn:E.
+      + apply ps_beq_eq in E. subst n. inversion Hf'; subst r'. cbn [psr_observable new] in Ho'.
+        apply (W3 name r Hf Ho').
+      + apply (W3 n r' Hf' Ho').
+    - intros n s Hs. destruct (W4 n s (Hsubset n s Hs)) as (Hreq & r' & Hf' & Ho').
+      split; [exact Hreq|]. rewrite Hfind. destruct (ps_beq n name) eqn:E.
+      + apply ps_beq_eq in E. subst n. rewrite Hf in Hf'. inversion Hf'; subst r'.
+        exists new. split; [reflexivity|exact Ho'].
+      + exists r'. split; assumption.
+    - intros n s Hs. apply F3. split; [apply (W5 n s (Hsubset n s Hs))|].
+      intros s' Hs' Ek. cbn [ps_obs_of pso_key] in Ek.
+      destruct (iv_key _ _ _ _ _ _ _ Hi n s name s' (Hsubset n s Hs)) as [X Y];
+        [exists r; split; [exact Hf|apply Hfi; exact Hs']|exact Ek|].
+      subst n s'. apply Hrep in Hs. destruct Hs as [[_ Hin]|[Hne _]]; [|congruence].
+      cbn [psr_subs new] in Hin. rewrite Hsplit in Hnd.
+      apply (ps_nodup_app_diff _ _ pss_key l (skipn k (psr_subs r)) s s Hnd Hs' Hin). reflexivity.
+    - intros rec Hr. apply F3 in Hr. apply W6. exact (proj1 Hr).
+    - apply ps_abs_obs_deletes_nodup. exact W7.
+    - apply ps_abs_obs_deletes_nodup. exact W8.
+    - rewrite F2. exact W9.
+    - intros n tu tok v0 Hin. rewrite F2. apply (W10 n tu tok v0 Hin).
+  Qed.
+
+  (* the dynamic-resource record goes: the files contain the memory state without the resource *)
+  Lemma ps_invw_dyn_deleted : forall name m' m2 A G,
+    invw m' A G -> (forall n, n <> name -> ps_find n m2 = ps_find n m') -> ps_find name m2 = None ->
+    invw m2 (ps_abs_call (CDynDeleted name) A) G.
+  Proof.
+    intros name m' m2 A G Hw Hfo Hnone.
+    assert (Hne_of : forall n r, ps_find n m2 = Some r -> n <> name)
+      by (intros n r E X; subst n; rewrite Hnone in E; discriminate).
+    assert (Hsub : forall n s, ps_insub m2 n s -> n <> name /\ ps_insub m' n s).
+    { intros n s (r & Hf & Hin). pose proof (Hne_of n r Hf) as Hne. split; [exact Hne|].
+      exists r. rewrite <- (Hfo n Hne). split; assumption. }
+    assert (Hdn : ps_ol (ab_dyn (ps_abs_call (CDynDeleted name) A)) = ps_dyn_without name (ps_ol (ab_dyn A)))
+      by (cbn [ps_abs_call ab_dyn]; apply ps_ol_rem; reflexivity).
+    destruct Hw as [W1 W2 W3 W4 W5 W6 W7 W8 W9 W10]. constructor; try assumption.
+    - apply (ps_abs_call_wf (fun _ _ => 0)); [assumption|exact I].
+    - intros d Hd. rewrite Hdn in Hd. apply ps_dyn_without_in in Hd. apply W2. exact (proj1 Hd).
+    - intros n r Hf Ho. pose proof (Hne_of n r Hf) as Hne. rewrite (Hfo n Hne) in Hf.
+      destruct (W3 n r Hf Ho) as [Hs|(d & Hd & Hdn')]; [left; exact Hs|right].
+      exists d. split; [|exact Hdn']. rewrite Hdn. apply ps_dyn_without_in. split; [exact Hd|].
+      rewrite Hdn'. exact Hne.
+    - intros n s Hs. destruct (Hsub n s Hs) as [Hne Hs']. destruct (W4 n s Hs') as (Hreq & r' & Hf' & Ho').
+      split; [exact Hreq|]. exists r'. rewrite (Hfo n Hne). split; assumption.
+    - intros n s Hs. apply (W5 n s (proj2 (Hsub n s Hs))).
+  Qed.
+
+  (* delete, before the counter line goes *)
+  Lemma ps_mid_del : forall name m A G r j,
+    inv m A G -> psr_observe r < ps_bound c -> ps_find name m = Some r ->
+    let pre := if ps_del_bump r && (ps_del_value r mod psc_freq c =? 0)
+               then [CCntTrack name (ps_del_value r)] else [] in
+    let calls := pre ++ map (fun s => CObsDeleted (pss_key s)) (psr_subs r) ++
+                 [CDynDeleted name; CCntDeleted name] in
+    ((j <= length pre + length (psr_subs r))%nat ->
+     invw (ps_replace (mkRsrc name (psr_observable r) (ps_del_value r)
+                              (skipn (j - length pre) (psr_subs r))) m)
+          (ps_abs_calls (firstn j calls) A) G) /\
+    (j = S (length pre + length (psr_subs r)) ->
+     invw (ps_remove name m) (ps_abs_calls (firstn j calls) A) G).
+  Proof.
+    intros name m A G r j Hi Hok Hf pre calls.
+    assert (Hpre : forall i, firstn i pre = [] \/ firstn i pre = [CCntTrack name (ps_del_value r)]).
+    { intro i. subst pre. destruct (ps_del_bump r && (ps_del_value r mod psc_freq c =? 0)).
+      - destruct i as [|i]; [left; reflexivity|right]. cbn [firstn]. destruct i; reflexivity.
+      - left. destruct i; reflexivity. }
+    assert (Stage : forall i, (i <= length pre + length (psr_subs r))%nat ->
+              invw (ps_replace (mkRsrc name (psr_observable r) (ps_del_value r)
+                                       (skipn (i - length pre) (psr_subs r))) m)
+                   (ps_abs_calls (firstn i calls) A) G).
+    { intros i Hi'. subst calls. rewrite ps_firstn_del by exact Hi'. rewrite ps_abs_calls_app.
+      destruct (ps_mid_del_pre name m A G r (firstn i pre) Hi Hf Hok (Hpre i)) as (Hw0 & Ho0 & _).
+      apply (ps_mid_del_obs name m A G _ r (ps_del_value r) (i - length pre) Hi Hf Hw0 Ho0). }
+    split; [apply Stage|]. intro Ej.
+    pose proof (Stage (length pre + length (psr_subs r))%nat (Nat.le_refl _)) as Hw.
+    assert (Efn : firstn j calls =
+                  firstn (length pre + length (psr_subs r)) calls ++ [CDynDeleted name]).
+    { subst calls j.
+      rewrite (ps_firstn_del _ pre _ (psr_subs r) (length pre + length (psr_subs r))) by lia.
+      rewrite (firstn_all2 pre) by lia.
+      replace (length pre + length (psr_subs r) - length pre)%nat with (length (psr_subs r)) by lia.
+      rewrite firstn_all.
+      rewrite app_assoc.
+      replace (S (length pre + length (psr_subs r)))
+        with (length (pre ++ map (fun s => CObsDeleted (pss_key s)) (psr_subs r)) + 1)%nat
+        by (rewrite app_length, map_length; lia).
+      rewrite firstn_app_2. reflexivity. }
+    rewrite Efn, ps_abs_calls_app. cbn [ps_abs_calls].
     pose proof (iv_names _ _ _ _ _ _ _ Hi) as Hnames.
-    assert (Hnone : ps_find name (ps_remove name m) = None) by (apply ps_find_remove_same; exact Hnames).
-    assert (Hfo : forall n, n <> name -> ps_find n (ps_remove name m) = ps_find n m)
-      by (intros; apply ps_find_remove_other; assumption).
-    assert (Hne_of : forall n r', ps_find n (ps_remove name m) = Some r' -> n <> name)
-      by (intros n r' E X; subst n; rewrite Hnone in E; discriminate).
-    assert (Hiff : forall n s, ps_insub (ps_remove name m) n s <-> n <> name /\ ps_insub m n s)
-      by (intros; apply ps_insub_remove; exact Hnames).
-    unfold ps_ghost. rewrite Hf.
-    set (G' := filter (fun x : ps_send => negb (ps_beq name (fst (fst (fst x))))) G).
-    assert (Hg : forall n tu tok v, In (n, tu, tok, v) G' -> n <> name).
-    { intros n tu tok v Hin. apply filter_In in Hin. destruct Hin as [_ Hb]. cbn [fst] in Hb.
-      intro X. subst n. rewrite ps_beq_refl in Hb. discriminate. }
-    apply (ps_invw_harmless_all name); try assumption.
-    - (* the files of the event's start already contain the smaller memory state *)
-      destruct Hw as [W1 W2 W3 W4 W5 W6 W7 W8 W9 W10]. constructor; try assumption.
-      + intros n r' Hf' Ho'. rewrite (Hfo n (Hne_of n r' Hf')) in Hf'. apply (W3 n r' Hf' Ho').
-      + intros n s Hs. apply Hiff in Hs. destruct Hs as [Hne Hs]. destruct (W4 n s Hs) as (Hreq & r' & Hf' & Ho').
-        split; [exact Hreq|]. exists r'. rewrite (Hfo n Hne). split; assumption.
-      + intros n s Hs. apply Hiff in Hs. apply (W5 n s (proj2 Hs)).
-      + intros n tu tok v Hin. apply filter_In in Hin. apply (W10 n tu tok v (proj1 Hin)).
-    - apply ps_forall_firstn. cbn [ps_ev_calls]. rewrite Hf. apply Forall_app. split.
-      + destruct (ps_del_bump r && (ps_del_value r mod psc_freq c =? 0)); [|constructor].
-        constructor; [|constructor]. cbn [ps_harmless]. split; [reflexivity|].
-        destruct (iv_res _ _ _ _ _ _ _ Hi name r Hf) as (Hnok & Hrange & _).
-        cbn [ps_evt_ok] in Hok. specialize (Hok r Hf).
-        cbn [ps_call_wf]. split; [exact Hnok|].
-        unfold ps_del_value, ps_next_observe, ps_bound in *.
-        destruct (ps_del_bump r); [rewrite Z.mod_small by lia|]; lia.
-      + constructor; [reflexivity|]. constructor; [reflexivity|].
-        apply Forall_forall. intros cl Hcl. apply in_map_iff in Hcl. destruct Hcl as (s & <- & Hs).
-        cbn [ps_harmless]. intros n s' Hs' Ek. apply Hiff in Hs'. destruct Hs' as [Hne Hs'].
-        destruct (iv_key _ _ _ _ _ _ _ Hi n s' name s Hs') as [X _]; [exists r; split; assumption|exact Ek|].
-        contradiction.
+    eapply ps_invw_dyn_deleted; [exact Hw| |apply ps_find_remove_same; exact Hnames].
+    intros n Hne. rewrite (ps_find_remove_other name m n Hne). symmetry.
+    apply ps_find_replace_other. cbn [psr_name]. apply ps_beq_false. exact Hne.
   Qed.
 
   (* the state after the observe-file part of a registration, before the counter line is written *)
@@ -228,18 +305,35 @@ Section Mid.
                    invw (ps_mem_at e m (S j'))
                         (ps_abs_calls (firstn (S j') (ps_ev_calls alloc c e m)) A) (ps_ghost_at e m G (S j'))).
     { intros El Em. rewrite Em, El, firstn_all. unfold ps_ghost_at. rewrite <- El.
-      replace (match e with PsEvDel _ => ps_ghost alloc e m G
-               | _ => if (S j' <=? S j')%nat then ps_ghost alloc e m G else G end)
-        with (ps_ghost alloc e m G) by (rewrite Nat.leb_refl; destruct e; reflexivity).
+      rewrite Nat.leb_refl.
       apply (ps_inv_invw (fun _ _ => 0)). exact Hfin. }
     destruct e; cbn [ps_evt_ok] in Hok; try contradiction.
     - (* put: at most one call *)
       apply Hall; [|reflexivity]. cbn [ps_ev_calls] in *. destruct (ps_find name m); cbn [length] in *; [lia|].
       destruct observable; cbn [length] in *; lia.
     - (* delete *)
-      cbn [ps_mem_at ps_ghost_at ps_ev_out]. cbn [ps_ev_calls] in Hj.
+      cbn [ps_ev_calls] in Hj, Hall |- *. cbn [ps_mem_at ps_ev_out] in Hall |- *.
       destruct (ps_find name m) as [r|] eqn:Hf; [|cbn [length] in Hj; lia].
-      cbn [fst]. apply (ps_mid_del name m A G r (S j') Hi); [cbn [ps_evt_ok]; rewrite Hf; exact Hok|exact Hf].
+      specialize (Hok r eq_refl).
+      destruct (ps_mid_del name m A G r (S j') Hi Hok Hf) as [St1 St2]. cbn zeta in St1, St2.
+      set (pre := if ps_del_bump r && (ps_del_value r mod psc_freq c =? 0)
+                  then [CCntTrack name (ps_del_value r)] else []) in *.
+      assert (Ep : (if ps_del_bump r && (ps_del_value r mod psc_freq c =? 0) then 1%nat else 0%nat) = length pre)
+        by (subst pre; destruct (ps_del_bump r && (ps_del_value r mod psc_freq c =? 0)); reflexivity).
+      rewrite Ep in Hall |- *. rewrite !app_length, map_length in Hj, Hall. cbn [length] in Hj, Hall.
+      destruct (Nat.leb_spec (S j') (length pre + length (psr_subs r))) as [L|L].
+      + (* the resource is still there *)
+        replace (ps_ghost_at (PsEvDel name) m G (S j')) with G; [apply St1; exact L|].
+        unfold ps_ghost_at. cbn [ps_ev_calls]. rewrite Hf. fold pre.
+        rewrite !app_length, map_length. cbn [length].
+        destruct (Nat.leb_spec (length pre + (length (psr_subs r) + 2)) (S j')); [lia|reflexivity].
+      + destruct (Nat.eq_dec (S j') (S (length pre + length (psr_subs r)))) as [E|E].
+        * (* its record is gone, the counter line is still there *)
+          replace (ps_ghost_at (PsEvDel name) m G (S j')) with G; [apply St2; exact E|].
+          unfold ps_ghost_at. cbn [ps_ev_calls]. rewrite Hf. fold pre.
+          rewrite !app_length, map_length. cbn [length].
+          destruct (Nat.leb_spec (length pre + (length (psr_subs r) + 2)) (S j')); [lia|reflexivity].
+        * apply Hall; [lia|reflexivity].
     - (* register *)
       cbn [ps_ev_calls] in Hj, Hcw, Hfin |- *. cbn [ps_ev_out] in Hfin.
       destruct (ps_find name m) as [r|] eqn:Hf; [|cbn [length] in Hj; lia].
